@@ -3,6 +3,7 @@ import NfcVerif.Lemmas.Handover
 import NfcVerif.Lemmas.SnepSched
 import NfcVerif.Lemmas.NdefRecords
 import NfcVerif.Lemmas.SnepHostile
+import NfcVerif.Lemmas.SnepObj
 /-!
 # C06 - SNEP and handover carry NDEF messages intact through fragmentation
 
@@ -500,5 +501,101 @@ example : (srvFeed { maxAcc := 4, smiu := 128, h := { valid := fun _ => true, pu
     .idle [[0x10, 2, 0, 0, 0, 4, 0xD1, 1, 0, 0x54]]).2.2 = [(Op.put, [0xD1, 1, 0, 0x54])] := by decide
 
 end hostile
+
+/-! ## The client objects over their life time
+
+One `SnepClient` object is used for a whole history of calls: requests over temporary connections
+to the default server, `connect(service)` + any number of requests, `close()`, in any order
+(`Model/SnepObj.lean`; the peer offers any number of SNEP services, index 0 is the default one). -/
+section histories
+open NfcVerif.SnepObj NfcVerif.Snep
+
+/-- **every message goes, once, to the service the client is connected to at that time** - the
+default service when the connection is temporary - for every history of `connect` / `put` / `get`
+/ `close` calls on one `SnepClient` object, every number of services on the peer, every MIU >= 6;
+a temporary connection is released right after its request, an explicit one is kept until
+`close()` / the next `connect()` (`sock`), and connections are opened exactly once per `connect`
+and once per request made while unconnected (`opened`).  `Good`: `connect` names an existing
+service and every message is acceptable to every service, so the *outcome* of a request cannot
+tell where it went - only the delivery log can. -/
+theorem client_history_delivers_to_connected_service (w : World) (hw : GoodWorld w) (acc : Nat) (h : List HOp)
+    (hg : ∀ x ∈ h, Good w acc x) :
+    ∃ N, ∀ fuel, N ≤ fuel →
+      (hrun w fuel false { acc := acc } h).1.dl = specDl none h ∧
+      (hrun w fuel false { acc := acc } h).1.sock.map (·.svc) = specCur none h ∧
+      (hrun w fuel false { acc := acc } h).1.opened = specOpened none h ∧
+      (hrun w fuel false { acc := acc } h).1.closed ++ (specCur none h).toList = (hrun w fuel false { acc := acc } h).1.opened := by
+  have hi : Inv w ({ acc := acc } : Obj) none := ⟨rfl, fun c hc => by simp at hc, rfl⟩
+  obtain ⟨N, hN⟩ := history_run w hw h { acc := acc } none hi hg
+  exact ⟨N, fun fuel hf => by
+    obtain ⟨a, b, c⟩ := hN fuel hf
+    exact ⟨by simpa using b, a.cur_eq, by simpa using c, a.bal⟩⟩
+
+/-- two services that differ in nothing the client can see -/
+def twoServices : World :=
+  [{ cfg := { maxAcc := 100, smiu := 6, h := { valid := fun _ => true, put := fun _ => 0x81, get := fun _ => .inl 0xE0 } }, cmiu := 6 },
+   { cfg := { maxAcc := 100, smiu := 8, h := { valid := fun _ => true, put := fun _ => 0x81, get := fun _ => .inl 0xE0 } }, cmiu := 7 }]
+
+/-- a temporary connection, then `connect` to the other service and two requests -/
+def mixedHistory : List HOp :=
+  [.req .put [0xD0, 0, 0], .connect 1, .req .put [0xD1, 1, 1, 0x54, 7], .req .put [0xD1, 1, 0, 0x55], .close, .req .put [0xD0, 0, 0]]
+
+theorem twoServices_good : GoodWorld twoServices :=
+  ⟨by decide, fun s hs => by simp [twoServices] at hs; rcases hs with rfl | rfl <;> simp⟩
+
+example : GoodWorld twoServices ∧ (∀ x ∈ mixedHistory, Good twoServices 10 x) := by
+  refine ⟨twoServices_good, fun x hx => ?_⟩
+  simp only [mixedHistory, List.mem_cons, List.not_mem_nil, or_false] at hx
+  rcases hx with rfl | rfl | rfl | rfl | rfl | rfl <;> simp [Good, twoServices]
+
+example : (hrun twoServices 20 false { acc := 10 } mixedHistory).1.dl =
+    [(0, .put, [0xD0, 0, 0]), (1, .put, [0xD1, 1, 1, 0x54, 7]), (1, .put, [0xD1, 1, 0, 0x55]), (0, .put, [0xD0, 0, 0])] ∧
+    (hrun twoServices 20 false { acc := 10 } mixedHistory).1.opened = [0, 1, 0] ∧
+    (hrun twoServices 20 false { acc := 10 } mixedHistory).1.closed = [0, 1, 0] := by decide
+
+/-- the statement for a client whose `release_connection` is only ever raised (C06-r4m1); `rest`
+says that every request of the run had enough fuel to come to rest -/
+def StickyHistories : Prop :=
+  ∀ (w : World) (acc : Nat) (h : List HOp) (fuel : Nat), GoodWorld w → (∀ x ∈ h, Good w acc x) →
+    (hrun w fuel true { acc := acc } h).1.rest = true → (hrun w fuel true { acc := acc } h).1.dl = specDl none h
+
+/-- **a release flag that sticks sends messages to the wrong application**: after one request over
+a temporary connection the explicit connection to service 1 is torn down after its first request,
+and the next message goes to the default service -/
+theorem client_history_sticky_release_counterexample : ¬ StickyHistories := by
+  intro h
+  have := h twoServices 10 mixedHistory 20 twoServices_good (fun x hx => by
+    simp only [mixedHistory, List.mem_cons, List.not_mem_nil, or_false] at hx
+    rcases hx with rfl | rfl | rfl | rfl | rfl | rfl <;> simp [Good, twoServices]) (by decide)
+  exact absurd this (by decide)
+
+/-- where the third message went -/
+example : (hrun twoServices 20 true { acc := 10 } mixedHistory).1.dl =
+    [(0, .put, [0xD0, 0, 0]), (1, .put, [0xD1, 1, 1, 0x54, 7]), (0, .put, [0xD1, 1, 0, 0x55]), (0, .put, [0xD0, 0, 0])] := by decide
+
+end histories
+
+section handover_histories
+open NfcVerif.SnepObj NfcVerif.Handover
+
+/-- **HandoverClient histories**: any sequence of `connect` / request / `close` in which every
+request is made while connected - each request message reaches the server application exactly once,
+in order, every connection starts with an empty reassembly buffer on both sides, and every request
+gets its own select message -/
+theorem handover_client_history_delivers (cfg : HCfg) (cmiu : Nat) (hc : 0 < cmiu) (hs : 0 < cfg.smiu)
+    (hreset : cfg.reset = true) (h : List HHOp) (msgs : List Bytes) (hsp : hhSpec false h = some msgs)
+    (hpf : ∀ m ∈ msgs, PrefixFree cfg.complete m ∧ PrefixFree cfg.complete (cfg.handler m)) :
+    ∃ N, ∀ fuel, N ≤ fuel →
+      (hhrun cfg cmiu fuel {} h).1.dl = msgs ∧
+      (hhrun cfg cmiu fuel {} h).2.filterMap HHRes.answer =
+        msgs.map (fun m => some (cfg.handler m)) := by
+  obtain ⟨N, hN⟩ := hh_history_run cfg cmiu hc hs hreset h {} false msgs ⟨rfl, fun n hn => by simp at hn⟩ hsp hpf
+  exact ⟨N, fun fuel hf => by simpa using hN fuel hf⟩
+
+example : (hhrun { smiu := 2, complete := ndefComplete, handler := fun _ => [0xD0, 0, 0], reset := true } 4 8 {}
+    [.connect, .req [0xD1, 1, 2, 0x54, 7, 8], .close, .connect, .req [0xD1, 1, 0, 0x54], .req [0xD0, 0, 0]]).1.dl =
+    [[0xD1, 1, 2, 0x54, 7, 8], [0xD1, 1, 0, 0x54], [0xD0, 0, 0]] := by decide
+
+end handover_histories
 
 end NfcVerif.C06
